@@ -546,7 +546,8 @@ def c07_e(ctx: Ctx):
     ])
     out += groupby_sorted(ctx, R, ("signac.project",))
     if ctx.prog.modules.get("signac.__main__") is not None:
-        out += coalesce_to_none(ctx, R, ["signac.__main__:_find_with_filter_or_none", "signac.__main__:_find_with_filter"],
+        out += coalesce_to_none(ctx, R, [q for q in ("signac.__main__:_find_with_filter_or_none", "signac.__main__:_find_with_filter")
+                                         if q in ctx.prog.funcs or q.endswith(":_find_with_filter")],
                                 "a filter that matches no job becomes 'no filter', so `signac diff/schema/sync -f ...` act on the whole project while `signac find` with the same tokens selects nothing")
         f = ctx.prog.funcs.get("signac.__main__:_find_with_filter_or_none")
         if f is not None:
@@ -554,7 +555,8 @@ def c07_e(ctx: Ctx):
             for r in rets:
                 facts = common.facts_at(ctx, f, r, "n")
                 if r.value is not None and isinstance(r.value, ast.Call) and canon(r.value.func) == "_find_with_filter":
-                    if any(pol and "args.job_id or args.filter" in t for (t, pol) in facts) or (("args.job_id", True) in facts or ("args.filter", True) in facts):
+                    if any(pol and "args.job_id or args.filter" in t for (t, pol) in facts) or (("args.job_id", True) in facts or ("args.filter", True) in facts) \
+                            or common.entails(facts, "args.job_id or args.filter", True):
                         out.append(ctx.ok(R, f, r, "a selection is computed exactly when a job id or a filter was given"))
                     else:
                         out.append(ctx.inc(R, f, r, f"selection computed under {sorted(facts)}"))
